@@ -304,7 +304,15 @@ pub fn case(ctx: &mut Ctx, idx: u64) {
     for (name, build) in entry_points(&map, &conv, mode, &a, &reference, &d, &sc) {
         let dd = d.clone();
         let scc = sc.clone();
-        let r = guard(move || build().map(|p| api::perf_calc(scc.apply(p.difficulty(dd)))));
+        // entry points that were given the score specification before the mode switch are not given it again (that would
+        // repair whatever the switch lost) - unless it contains values an osu! builder cannot hold (katu / geki / a state)
+        let reapply = !(name.contains("<score>") && sc.state.is_none() && sc.n_katu.is_none() && sc.n_geki.is_none());
+        let r = guard(move || {
+            build().map(|p| {
+                let p = p.difficulty(dd);
+                api::perf_calc(if reapply { scc.apply(p) } else { p })
+            })
+        });
         ctx.eval();
         ctx.count(&format!("entry:{name}"));
         match r {
